@@ -19,7 +19,7 @@ import (
 
 //verif:include ../dnsdata/rdb/zz_verif_model.go
 //verif:include ../db/zz_verif_world.go
-//verif:harness H04_diff2 property=C04 native=no quick=layout=2,fa=1,fb=0,text=0,ecs=0;layout=0,fa=1,fb=0,text=0,ecs=0;layout=2,fa=1,fb=0,text=1,ecs=0;layout=2,fa=1,fb=0,text=0,ecs=1 thorough=layout=0,fa=1,fb=0,text=0,ecs=1;layout=1,fa=1,fb=0,text=0,ecs=0;layout=2,fa=1,fb=1,text=0,ecs=0;layout=2,fa=2,fb=0,text=0,ecs=0;layout=0,fa=1,fb=0,text=1,ecs=0;layout=1,fa=2,fb=0,text=1,ecs=0;layout=1,fa=1,fb=0,text=0,ecs=1
+//verif:harness H04_diff2 property=C04 native=no quick=layout=2,fa=1,fb=0,text=0,ecs=0;layout=0,fa=1,fb=0,text=0,ecs=0;layout=2,fa=1,fb=0,text=1,ecs=0;layout=2,fa=1,fb=0,text=0,ecs=1 thorough=layout=0,fa=1,fb=0,text=0,ecs=1;layout=1,fa=1,fb=0,text=0,ecs=0;layout=0,fa=1,fb=0,text=1,ecs=0;layout=1,fa=1,fb=0,text=0,ecs=1
 
 var verifForeignNames = []string{"z", "c.z", "d.z", "g.c.z", "l.z", "p.z", "q.z", "a.c.z", "0.z"}
 
